@@ -331,3 +331,25 @@ PLANS["C14"] = dict(
     assumptions=["edges are straight in tile space (the code interpolates in tile fractions)", "lattice points are reproduced by maptile.Fraction within 1e-6 tile (checked per point)"],
     trusted_base=["TLC 2026.09.04", "CommunityModules Json/IOUtils", "harness inverse mercator guarded by maptile.Fraction"],
 )
+
+# ---- C12 -------------------------------------------------------------------------------------------
+
+
+def run_c12(ctx):
+    ctx.mc("SimplifyMC", "SimplifyMC_%s.cfg" % ctx.tier, timeout=3000,
+           note="DP / radial / Visvalingam (every tie-break) transcriptions satisfy subsequence, endpoints, error bound, idempotence, spacing, counts, monotonicity")
+    shards = ctx.gen("simplify")
+    ctx.validate("Simplify_Trace", shards)
+    ctx.exhaustive = True
+    ctx.notes.append("exhaustive part: every path of <=4 (quick) / <=5 (thorough) vertices on a 4x4 grid through all three simplifiers")
+
+
+PLANS["C12"] = dict(
+    run=run_c12, signature=sig_default,
+    technique="TLA+ relations (subsequence, endpoints, exact rational error bound, spacing, counts, monotonicity) and transcriptions of the three simplifiers; TLC model-checks the transcriptions against the relations and validates traces of the real simplifier calls, with simplifier values reused across calls",
+    level_text="TLC checks for every path of <=5 (quick) / <=6 (thorough) vertices on a 3x3 grid and 5 thresholds that the Douglas-Peucker transcription (farthest vertex, strict >) keeps endpoints, stays within the threshold (exact rational point-segment distances), is idempotent and monotone, that the radial scan keeps the spacing, and that Visvalingam under every tie-break respects minimum counts, keep-N and monotonicity. Every path of <=4 (5) vertices on a 4x4 grid and seeded paths to 40 vertices (repeated, collinear, coincident-endpoint vertices), as lines and rings, through the typed and generic entry points, with dyadic thresholds, larger-threshold and second-application runs on REUSED simplifier values, are recorded; TLC evaluates the relations on each event.",
+    level_note="Thresholds are dyadic (a/4) so that t^2 and 2*area thresholds are exact rationals; a vertex at distance exactly t may be kept or dropped. Geodesic distance functions for Radial are not exercised. Trusted: TLC, Json module, integer projection of coordinates.",
+    rule="one event = one simplifier call (input, parameters, output, second application, larger threshold); non-trivial = at least one vertex dropped; distinct = distinct event text",
+    assumptions=["integer coordinates of magnitude <= 30 so that all squared distances and cross products fit 32 bits"],
+    trusted_base=["TLC 2026.09.04", "CommunityModules Json/IOUtils"],
+)
